@@ -180,6 +180,13 @@ func genC27(t *rapid.T, ctx *Ctx) interface{} {
 	switch rapid.IntRange(0, 5).Draw(t, "ver") {
 	case 0, 1: // keep version 0
 	case 2: // version 1
+		if isCBE && rapid.Bool().Draw(t, "padded") {
+			// version 0 or 1 spelled with redundant ULEB groups: still version 0 / 1
+			pad := rapid.SampledFrom([][]byte{{0x80, 0x00}, {0x81, 0x00}, {0x80, 0x80, 0x00}, {0x81, 0x80, 0x80, 0x00}, {0x80, 0x80, 0x80, 0x80, 0x80, 0x80, 0x80, 0x80, 0x80, 0x00}}).Draw(t, "padver")
+			doc = append(append([]byte{doc[0]}, pad...), doc[2:]...)
+			c.Note = fmt.Sprintf("padded-version:%d", len(pad))
+			break
+		}
 		if isCBE {
 			doc[1] = 1
 		} else {
@@ -342,6 +349,10 @@ func init() {
 				if serr == nil && !sameValue(u.res, sres) {
 					return fmt.Errorf("%s returned a different value than the %s entry point\ndoc=%s", u.name, kind, docdump(kind, c.Doc))
 				}
+				if serr != nil && !sameValue(u.res, sres) {
+					// what was built before the error is returned together with it (C09 relies on that)
+					return fmt.Errorf("%s returned %s together with its error, the %s entry point %s\ndoc=%s", u.name, describe(u.res), kind, describe(sres), docdump(kind, c.Doc))
+				}
 			}
 			for _, name := range []string{"DecodeDocument", "Decode"} {
 				rec := ev.NewRecorder()
@@ -400,6 +411,17 @@ func init() {
 				}
 				if (e0 == nil) != (sderr == nil) {
 					return fmt.Errorf("version 1 is not handled like version 0 by the %s decoder: v0 error=%v, v1 error=%v\ndoc=%s", kind, e0, sderr, docdump(kind, c.Doc))
+				}
+			}
+			if strings.HasPrefix(c.Note, "padded-version:") && !firstByteReplaced && !strings.Contains(c.Note, "mutated-body") && kind == "cbe" {
+				var k int
+				fmt.Sscanf(c.Note, "padded-version:%d", &k)
+				if len(c.Doc) > 1+k {
+					d0 := append([]byte{0x81, 0x00}, c.Doc[1+k:]...)
+					_, e0 := decodeCBE(d0, cfg)
+					if (e0 == nil) != (sderr == nil) {
+						return fmt.Errorf("a version 0 / 1 spelled with redundant ULEB groups is not handled like version 0 by the cbe decoder: canonical error=%v, padded error=%v\ndoc=%s", e0, sderr, docdump(kind, c.Doc))
+					}
 				}
 			}
 			if strings.HasPrefix(c.Note, "other-version") && !firstByteReplaced && !strings.Contains(c.Note, "mutated-body") && kind != "other" && sderr == nil {
